@@ -187,9 +187,11 @@ pub open spec fn no_double_minus(s: Skel) -> bool
     }
 }
 
-// parentheses the property says are never dropped, whatever the context
+// parentheses the property says are never dropped, whatever the context: those that truncate a value list (`(f())`, `(...)`) and
+// those that hold an if-expression together. (Parentheses around a binary operation are NOT in this list: whether they may go is a
+// question of operator grouping, which `fits` answers per position; the current code happens to keep all of them.)
 pub open spec fn must_keep_parens(inner: Skel) -> bool {
-    inner is Bin || (inner is Leaf && (inner->Leaf_0 is Call || inner->Leaf_0 is Varargs || inner->Leaf_0 is IfExpr))
+    inner is Leaf && (inner->Leaf_0 is Call || inner->Leaf_0 is Varargs || inner->Leaf_0 is IfExpr)
 }
 
 // ---- long-bracket strings directly inside `[ ]` (C01: `[[` must not be re-lexed) ----
